@@ -10,6 +10,7 @@ Decided clauses:
  4 the documented merge snippet and decorator composition compile for sequential, OpenMP and
    target/source executors (witness)
 """
+import os
 import re
 
 import sympy
@@ -34,6 +35,24 @@ INCREMENT = {
     "P2PInner": ("P2PInner", lambda c: c[("leaf", "count")] ** 2 - c[("leaf", "count")]),
 }
 EXECUTORS = ["TbfAlgorithm", "TbfAlgorithmTsm", "TbfOpenmpAlgorithm", "TbfOpenmpAlgorithmTsm", "TbfAlgorithmPeriodicTopTree", "TbfAlgorithmPeriodicTopTreeTsm"]
+
+ENTRY_TU = witness.HEADERS + """
+#include <type_traits>
+#include "kernels/counterkernels/tbfinteractioncounter.hpp"
+#include "kernels/counterkernels/tbfinteractiontimer.hpp"
+using RealType = double;
+template <class K> long int entry(){
+    typename K::ReduceType a{}, b{};
+    auto viaKernel = K::Reduce(a, b);
+    auto viaType = K::ReduceType::Reduce(a, b);
+    static_assert(std::is_same<decltype(viaKernel), decltype(viaType)>::value, "the two merge entry points give different types");
+    return long(sizeof(viaKernel));
+}
+long int witness(){
+    return entry<TbfInteractionCounter<TbfTestKernel<RealType>>>() + entry<TbfInteractionTimer<TbfTestKernel<RealType>>>()
+         + entry<TbfInteractionCounter<TbfInteractionTimer<TbfTestKernel<RealType>>>>();
+}
+"""
 
 MERGE_TU = witness.HEADERS + """
 #include "kernels/counterkernels/tbfinteractioncounter.hpp"
@@ -477,6 +496,13 @@ def run(res, tier):
         ex = stages.ExecutorSummary(facts, cls)
         ns = c03.only_through_stages(facts, ex, res, R="C18.3.counted-in-visited-kernels")
         res.instance("C18.3.counted-in-visited-kernels", cls + "::execute", facts.loc(ex.execute), "%d stage calls, no other call receives the tree" % ns)
+    res.rule("C18.4b every merge entry point the decorators declare instantiates: the kernel's own static Reduce(a, b) over its ReduceType gives the type the documented ReduceType::Reduce gives")
+    for comp in (("g++",) if tier == "quick" else ("g++", "clang++")):
+        rc, err = tbf.compile_witness(ENTRY_TU, compiler=comp, name="c18_entries.cpp", max_errors=5)
+        res.instance("C18.4.merge-entries", comp, "witness:c18_entries", "TbfInteractionCounter / TbfInteractionTimer / counter(timer): Kernel::Reduce(a, b)")
+        if rc != 0:
+            f, line, msg, _ = witness.first_src_error(err)
+            res.violation("C18.4.merge-entries", f, "<witness c18_entries>", "%s:Reduce" % os.path.basename(f), line, "a merge entry point of the counting decorators does not compile when used: " + msg[:300])
     for comp in (("g++",) if tier == "quick" else ("g++", "clang++")):
         rc, err = tbf.compile_witness(MERGE_TU, compiler=comp, name="c18_merge.cpp", max_errors=5)
         res.instance("C18.4.merge-witness", comp, "witness:c18_merge", "counter/timer/counter(timer)/printer x sequential/OpenMP/target-source, README merge")
